@@ -137,7 +137,7 @@ def main(arg=None):
                 results.append((mid, props[0], "stale"))
                 shutil.rmtree(d, ignore_errors=True)
                 continue
-        fam = [["C01", "C02", "C03", "C05", "C11", "C10", "C04"], ["C06", "C07", "C08", "C09", "C15", "C17", "C20"], ["C19"]]
+        fam = [["C01", "C02", "C03", "C05", "C11", "C10", "C04"], ["C06", "C07", "C08", "C09", "C15", "C17", "C20", "C01"], ["C19"]]
         own = list(props)
         for f in fam:
             if own[0] in f:
